@@ -185,7 +185,11 @@ let () =
                end
              end
            | "find" | "match" | "gmatch" | "gsub" | "gsub3" ->
-             (try pattern_op op s n with PTrap -> "!trap" | PUnsafe -> "!unsafe" | PFuel -> "!fuel")
+             (* the extracted matcher backtracks like the real one but on unary/binary-coded integers:
+                no model voice for patterns with many quantifiers (exponential search) *)
+             let quants = List.length (List.filter (fun c -> let c = int_of_z c in c = 63 || c = 42 || c = 43 || c = 45) (s 1)) in
+             if quants > 10 || List.length (s 1) > 64 || List.length (s 0) > 64 then "?"
+             else (try pattern_op op s n with PTrap -> "!trap" | PUnsafe -> "!unsafe" | PFuel -> "!fuel")
            | "abs" -> dec_of_z (nl_abs (n 0))
            | "fmod" -> res dec_of_z (nl_fmod (n 0) (n 1))
            | "ult" -> b2s (nl_ult (n 0) (n 1))
